@@ -17,8 +17,8 @@ trap 'rm -rf "$out"' EXIT
 status=0
 for d in props/*/; do
     p=$(basename "$d")
-    # Only registered properties (those with an entry.json) are built.
-    [ -f "$d/entry.json" ] || continue
+    # Only registered properties (entry.json with "registered": true) are built.
+    grep -qs '"registered": *true' "$d/entry.json" || continue
     race=""
     if grep -q '"race": *true' "$d/entry.json"; then race="-race"; fi
     if ! go1.26.8 test -c -tags verif $race -o "$out/$p.test" "./props/$p/" ; then
